@@ -9,6 +9,24 @@ CLAIMED = {
         note="Assumed: CPython call binding as modelled; helper checks (_check_lightsim2grid_compatibility, numba check, tdpf check) "
              "are pure functions of their arguments and of the element tables; _powerflow uses net._options as found on entry. "
              "Not decided: run_control=True, recycle shortcut."),
+    "C17": dict(
+        text="Proof for every element type (gen, sgen, ext_grid, load, storage, dcline), any table length and any cost values: the gencost "
+             "row written by the real _fill_gencost_poly / _add_linear_costs_as_pwl_cost / _map_costs_to_gen / _get_gen_index equals, as a "
+             "polynomial identity in PG, the user's cost function at the element's own power; row filtering keeps gens/cost/signs aligned "
+             "(side obligations). Piecewise-linear costs (costs_from_areas, _fill_gencost_pwl): same identity, bounded to 1..3 areas per "
+             "cost function (values symbolic). _get_costs: res_cost = ppc['obj'].",
+        note="Assumed: PYPOWER's documented evaluation of POLYNOMIAL / PW_LINEAR gencost rows; result power = sign * PG (C16); lookups map "
+             "labels to gens injectively; the solver's objective is the sum of the row costs (A-SOLVE). Not decided: optimality (convex optimum "
+             "clause), dcline q costs. Bounded stand-in: number of pwl areas <= 3."),
+    "C29": dict(
+        text="Proof (all currents, settings and table contents): two symbolic executions of the real Fuse.protection_function / "
+             "OCRelay.protection_function (all relay types and curve types, both scenarios) related by i1 <= i2: trip time non-increasing "
+             "over the extended reals, trip <=> current exceeds pick-up/start, activation value = own switch current of the chosen result "
+             "table, ValueError for other scenarios; Fuse.__init__ from a standard type establishes i_start_a/i_stop_a = min/max of the x "
+             "data of the characteristic it evaluates for every curve selection.",
+        note="Assumed (hypotheses of the statement): characteristic callable non-increasing and non-negative on [i_start, i_stop]; consistently "
+             "graded relay settings; x**alpha monotone for alpha > 0. Not decided: scipy interpolation itself, time_grading/"
+             "create_protection_function."),
 }
 
 NOT_APPLICABLE = {
